@@ -415,7 +415,8 @@ def _functional(c, clauses, skip=()):
     return [(lbl, ok(c, f)) for lbl, f in clauses if not lbl.startswith('tree:') and lbl not in skip]
 
 
-_INV_LABELS = ('cache-stays-sound-whatever-the-call-out-did', 'multi-caches-stay-sound', 'epoch-only-advances', 'caches-stay-sound',
+_INV_LABELS = ('the-caches-are-reached-through-the-virtual-_getcache',      # Python only: the C entry points of the verifying flavour verify explicitly (contracts/C06_c.py)
+               'cache-stays-sound-whatever-the-call-out-did', 'multi-caches-stay-sound', 'epoch-only-advances', 'caches-stay-sound',
                'caches-stay-sound-whatever-the-call-out-did')
 
 
